@@ -191,6 +191,12 @@ namespace GeographicLib {
       Sub(t, "`", '\'');
       return t;
     }
+    // ZQ1: the equality guard is taken before the operands are replaced by their reciprocals
+    static double Dratio(double tx, double ty, double g) {
+      if (tx == ty) return g;
+      tx = 1 / tx; ty = 1 / ty;
+      return std::atan2(g * (ty - tx), 1 + tx * ty) / std::atan2(ty - tx, 1 + tx * ty);
+    }
     // CP1: the northing clause is a copy of the easting clause with one name left behind
     static double Pad(double easting, double northing, double scale) {
       double w = 0;
